@@ -14,10 +14,10 @@ from pddl_plus_parser.exporters import TrajectoryExporter
 from pddl_plus_parser.lisp_parsers import TrajectoryParser
 
 
-KINDS = ["app", "apply", "newop", "applyop", "copy", "eq", "run", "export", "parse", "objs", "flconds", "typed", "edit", "groundrep"]
-WEIGHTS = {"chain": [3, 8, 1, 3, 0, 0, 2, 0, 0, 0, 0, 0, 2, 1], "mixed": [2, 5, 1, 3, 1, 2, 2, 1, 1, 1, 1, 1, 2, 1],
-           "state": [1, 5, 1, 2, 3, 6, 1, 0, 1, 2, 2, 2, 3, 1], "traj": [0, 2, 0, 0, 0, 1, 4, 3, 4, 0, 0, 0, 0, 1],
-           "plans": [0, 1, 0, 0, 0, 0, 6, 1, 1, 0, 0, 0, 0, 0]}
+KINDS = ["app", "apply", "newop", "applyop", "copy", "eq", "run", "export", "parse", "objs", "flconds", "typed", "edit", "groundrep", "oprepeat"]
+WEIGHTS = {"chain": [3, 8, 1, 3, 0, 0, 2, 0, 0, 0, 0, 0, 2, 1, 0], "mixed": [2, 5, 1, 3, 1, 2, 2, 1, 1, 1, 1, 1, 2, 1, 2],
+           "state": [1, 5, 1, 2, 3, 6, 1, 0, 1, 2, 2, 2, 3, 1, 1], "traj": [0, 2, 0, 0, 0, 1, 4, 3, 4, 0, 0, 0, 0, 1, 0],
+           "plans": [0, 1, 0, 0, 0, 0, 6, 1, 1, 0, 0, 0, 0, 0, 0]}
 
 
 def proj_steps(triplets):
@@ -57,6 +57,7 @@ def run_case(case, opts):
     ops = {}
     runs = {}
     run_prob = {}
+    last_op = [None]
     plans_done = []
     acts = case["acts"]
     objs = case["objs"]
@@ -146,6 +147,9 @@ def run_case(case, opts):
                 pass
         elif kind == "applyop" and ops:
             oh = rng.choice(list(ops))
+            if last_op[0] is not None and rng.random() < 0.4:
+                oh, sh = last_op[0]            # the same operator object on the same state object once more
+            last_op[0] = (oh, sh)
             r = rng.random()
             allow = r < 0.4
             if rng.random() < 0.3:
@@ -158,6 +162,22 @@ def run_case(case, opts):
                 out, new = pylib.observe_apply(dom, None, None, None, states[sh], allow=allow, skip=False, op=ops[oh])
                 h = fresh("n")
                 ev.append({"c": "ApplyOp", "op": oh, "s": sh, "h": h, "allow": allow, "skip": False, "out": out})
+                if new is not None:
+                    states[h] = new
+        elif kind == "oprepeat" and ops:
+            # one Operator object: asked about and applied to a state, then used on another state, then asked about and
+            # applied to the first state again - the answers about the first state must not have changed
+            oh = rng.choice(list(ops))
+            other = rng.choice(list(states))
+            for target in (sh, other, sh):
+                try:
+                    out = {"val": bool(ops[oh].is_applicable(states[target]))}
+                except Exception as e:  # noqa: BLE001
+                    out = {"exc": pylib.exc_name(e)}
+                ev.append({"c": "IsApplicableOp", "op": oh, "s": target, "out": out})
+                out, new = pylib.observe_apply(dom, None, None, None, states[target], allow=True, skip=False, op=ops[oh])
+                h = fresh("n")
+                ev.append({"c": "ApplyOp", "op": oh, "s": target, "h": h, "allow": True, "skip": False, "out": out})
                 if new is not None:
                     states[h] = new
         elif kind == "copy":
